@@ -436,7 +436,7 @@ def finish_case(ctx, kind, case, req, model, analysis, samples, search, internal
         if os.environ.get("VERIF_DEBUG"):
             print(tb, file=sys.stderr)
         if f'File "{common.REPO}/' not in tb:
-            raise  # nothing of the implementation on the stack: a defect of this oracle, not a verdict
+            raise  # nothing of the implementation on the stack: not a property-level verdict (run.py reports a broken tie)
         ctx.fail(f"C05-{kind}-result-unusable", f"{kind}: reading the samples / best fit of the returned result raises "
                  f"{type(e).__name__}", case, {"error": f"{type(e).__name__}: {str(e)[:300]}"})
     nontrivial = model.prior_count >= 2 and len(real) >= 2
